@@ -161,11 +161,14 @@ func checkC11(ctx *Ctx, c *Case, rounds int) error {
 	for g := range privs {
 		privs[g] = model.BuildP(t, d.ProtoReflect())
 	}
-	// sequential reference
+	// sequential reference, computed on an equal but separate message so that
+	// the shared one is first touched by the concurrent readers (a lazily
+	// materialised container would otherwise be warmed up here)
+	seq := model.BuildP(t, d.ProtoReflect())
 	want := make([][]string, maxG)
 	for g := 0; g < maxG; g++ {
 		for _, op := range byG[g] {
-			want[g] = append(want[g], c11Op(op.Op, shared, privs[g]))
+			want[g] = append(want[g], c11Op(op.Op, seq, privs[g]))
 		}
 	}
 	if procs := c.argInt("procs"); procs > 0 {
